@@ -90,7 +90,8 @@ def _consume(k):
     _pyrandom.seed(99)
     if k:
         np.random.random(k)
-        _pyrandom.random()
+        for _ in range(k):  # the TABLE sampler draws from Python's generator: leave it in a different state as well
+            _pyrandom.random()
 
 
 # ------------------------------------------------------------------------------------ standard engine, real process
@@ -289,7 +290,8 @@ def strat_real(draw, tier):
                        "eta2": draw(_f(8.0, 20.0)), "intensity": draw(_f(1.0, 4.0))},
             "levels": draw(st.integers(1, 2)), "paths": draw(st.integers(4, 10)), "seed": draw(st.sampled_from([5, 77])),
             "prior": [draw(st.integers(0, 50)), draw(st.integers(51, 300))], "maturity": draw(_f(0.3, 1.0)),
-            "method": draw(st.sampled_from(["BINARYSEARCHTREEADAPTED1D", "INVERSION", "ALIAS"]))}
+            "method": draw(st.sampled_from(["BINARYSEARCHTREEADAPTED1D", "INVERSION", "ALIAS", "TABLE", "TABLE", "BINARYSEARCHTREE",
+                                            "HUFFMANNTREE"]))}
 
 
 def _run_real(case, prior, clock_value=1_700_000_000.0):
@@ -396,7 +398,7 @@ SUBCHECKS = [
     SubCheck("multilevel-engine-real-coupling", body_real, classify_real,
              rule="multilevel engine (fixed levels 1..2, 4..10 paths) on a real CouplingMarkovChain (HEM): seeded "
                   "repeat, distinct samples across levels, coarse(l) != fine(l-1)",
-             strategy=strat_real, budget={"quick": 32, "thorough": 320}, shards={"quick": 16, "thorough": 16}),
+             strategy=strat_real, budget={"quick": 160, "thorough": 1600}, shards={"quick": 16, "thorough": 16}),
     SubCheck("worker-processes", body_mp, classify_mp,
              rule="standard engine with 2..4 worker processes x path counts (enumerated): every index written once, "
                   "stored samples pairwise distinct",
